@@ -37,8 +37,37 @@ def main():
 
     s = replace_table(s, r"### 10\.4 [^\n]*\n", t_fixed)
     s = replace_table(s, r"### 10\.5 [^\n]*\n", t_known)
+    # 10.7: independent seeded changes
+    import glob
+    import os
+
+    t_seed = ["| seed | property | change | caught by (quick tier) | first missed by |", "|---|---|---|---|---|"]
+    n_seed = 0
+    for d in sorted(glob.glob(f"{ROOT}/seeded/*/"), key=lambda x: (os.path.basename(x.rstrip("/")).split("-")[0], x)):
+        mp = d + "meta.json"
+        if not os.path.exists(mp):
+            continue
+        m = json.load(open(mp))
+        title = m.get("title")
+        if not title and os.path.exists(d + "REPORT.md"):
+            first = next((ln for ln in open(d + "REPORT.md") if ln.strip()), "")
+            title = first.lstrip("# ").strip()
+        title = re.sub(r"^(Seeded regression|Injected regression|Seeded change)[^:]*:\s*", "", title or "")
+        title = re.sub(r"^(S2?-C\d+ \(independent sub-agent\) \S+ |C\d+ seeded change: |C\d+ regression: |S2-C\d+: )", "", title)[:140]
+        caught = m.get("caught_by") or []
+        t_seed.append(f"| {m['seed']} | {m['property']} | {title} | {', '.join(caught) or '**none**'} | {', '.join(m.get('first_missed_by', [])) or '-'} |")
+        n_seed += 1
+    m7 = re.search(r"\| seed \| property \| change \|[^\n]*\n", s)
+    if m7:
+        start = m7.start()
+        end = start
+        for line in s[start:].splitlines(keepends=True):
+            if not line.startswith("|"):
+                break
+            end += len(line)
+        s = s[:start] + "\n".join(t_seed) + "\n" + s[end:]
     open(f"{ROOT}/DESIGN.md", "w").write(s)
-    print(f"DESIGN.md: {len(fixed)} fixed, {len(known)} known")
+    print(f"DESIGN.md: {len(fixed)} fixed, {len(known)} known, {n_seed} seeds")
 
 
 if __name__ == "__main__":
